@@ -302,3 +302,69 @@ def run_runtime(c, tier):
                 break
             c.bump("runtime_reconfiguration_comparisons")
             c.nontrivial("runtime|exp%s|flags%s" % ("".join(str(x) for x in ns), "".join(str(x) for x in fl_)))
+
+
+# ---------------------------------------------------------------------------------------------------------------
+# coordination numbers with a pair list, at the steps between two rebuilds of the list: the value is the documented sum
+# over the pairs kept at the last rebuild (those whose contribution exceeded the tolerance), with the same switching
+# function (isotropic or per-axis cutoffs) as at the rebuild steps
+# ---------------------------------------------------------------------------------------------------------------
+
+def run_pairlist(c, tier):
+    n = 12 if tier == "quick" else 120
+    rng = c.rng.__class__(c.seed * 4441 + 17)
+    cases = []
+    for i in range(n):
+        N = 14
+        g1, g2 = list(range(1, 7)), list(range(7, 15))
+        pos = [[rng.uniform(-3.5, 3.5) for _ in range(3)] for _ in range(N)]
+        aniso = (i % 2 == 0)
+        cut = [rng.uniform(2.5, 4.5) for _ in range(3)] if aniso else [rng.uniform(2.5, 4.5)] * 3
+        tol = rng.choice([0.02, 0.05, 0.1])
+        P = rng.choice([2, 3, 5])
+        en, ed = rng.choice([(6, 12), (4, 8), (6, 10)])
+        body = ("    group1 { atomNumbers %s }\n    group2 { atomNumbers %s }\n    %s\n    expNumer %d\n    expDenom %d\n    tolerance %s\n    pairListFrequency %d\n"
+                % (" ".join(map(str, g1)), " ".join(map(str, g2)), ("cutoff3 (%s, %s, %s)" % tuple(fnum(x) for x in cut)) if aniso else "cutoff %s" % fnum(cut[0]),
+                   en, ed, fnum(tol), P))
+        cfg = "colvar {\n  name cn\n  coordNum {\n" + body + "  }\n}\n"
+        drift = [rng.uniform(-2e-3, 2e-3) for _ in range(3)]
+        frames = []
+        for t in range(9):
+            frames.append([[p[d] + t * drift[d] + rng.uniform(-1e-4, 1e-4) for d in range(3)] for p in pos])
+        scn = "natoms %d\ntfmode off\nemit atoms off\nmodule\nconfig <<EOC\n%sEOC\ninit\n" % (N, cfg)
+        for f in frames:
+            scn += "pos " + " ".join(fnum(x) for p in f for x in p) + "\nstep\n"
+        cases.append(dict(idx=i, g1=g1, g2=g2, cut=cut, tol=tol, P=P, en=en, ed=ed, frames=frames, scn=scn, cfg=cfg, aniso=aniso))
+
+    def sw(case, a, b):
+        l = math.sqrt(sum(((b[d] - a[d]) / case["cut"][d]) ** 2 for d in range(3)))
+        return (1.0 - l ** case["en"]) / (1.0 - l ** case["ed"])
+
+    res = common.pmap(lambda cs: common.run_esim("plain", cs["scn"], os.path.join(c.work, "pl%d" % cs["idx"]), "pl", timeout=120), cases)
+    for case, (r, ev, sp) in zip(cases, res):
+        c.count()
+        steps = [e for e in ev if e.get("ev") == "step"]
+        cfgev = [e for e in ev if e.get("ev") == "config"]
+        if not r["complete"] or (cfgev and cfgev[0].get("rc")) or len(steps) != len(case["frames"]):
+            c.inconc("pair-list case did not run: %s" % (str(cfgev[0].get("errs"))[:200] if cfgev else r["err"][-200:]))
+            continue
+        listed = None
+        okc = True
+        for t, (e, f) in enumerate(zip(steps, case["frames"])):
+            raw = {(a, b): sw(case, f[a - 1], f[b - 1]) for a in case["g1"] for b in case["g2"]}
+            if t % case["P"] == 0:
+                listed = [k for k, v in raw.items() if v > case["tol"]]
+            if any(abs(v - case["tol"]) < 2e-3 for v in raw.values()):
+                continue            # a pair close to the tolerance threshold: membership of the list may differ, not judged
+            ex = sum((raw[k] - case["tol"]) / (1.0 - case["tol"]) for k in listed)
+            got = float(e["cv"]["cn"]["x"][0])
+            if abs(got - ex) > 1e-9 * max(1.0, abs(ex)):
+                c.violation("coordnum_pairlist:%s:%s" % ("cutoff3" if case["aniso"] else "cutoff", "rebuild_step" if t % case["P"] == 0 else "reuse_step"),
+                            "step %d (pairListFrequency %d, tolerance %s, %s): value %.12g, documented sum over the %d listed pairs %.12g" % (
+                                t, case["P"], case["tol"], "per-axis cutoffs" if case["aniso"] else "isotropic cutoff", got, len(listed), ex), [sp],
+                            payload={"config": case["cfg"]})
+                okc = False
+                break
+            c.bump("pairlist_values_checked")
+        if okc:
+            c.nontrivial("pairlist|%s|P%d" % ("cutoff3" if case["aniso"] else "cutoff", case["P"]))
